@@ -1626,3 +1626,292 @@ def life_random(r, n=12):
         scs.append(life_base(family="random:" + where, retries=retries, delay=d, attempts=atts, sigs=sigs,
                              backoff=r.choice(["fixed", "fixed", "exponential"])))
     return scs
+
+
+# =============================================================================================
+# The request arms of every wait loop, regenerated from the source (DESIGN 11.2e): translator
+# harness/src/bin/arm_table.rs -> coq/gen/GenArmTable.v; Proofs/ArmBridge.v proves, for all states
+# and requests, that the interpretation of the generated table (Model/ArmTable.v) is the model's
+# hand-written request handling; Properties/Arms.v states what C09 - C12 need from it.
+
+ARM_LOOPS = ["run_test_inner", "run_setup_script_inner", "terminate_child", "detect_fd_leaks",
+             "handle_delay_between_attempts"]
+ARM_FIELDS = ["a_test", "a_script", "a_term", "a_leak", "a_delay"]
+ARM_SHORT = ["test", "script", "term", "leak", "delay"]
+ARM_REQS = ["Stop", "Continue", "Shutdown", "OtherCancel", "GetInfo", "entry", "grace-expiry"]
+ARM_REQ_FIELDS = ["on_stop", "on_cont", "on_shutdown", "on_cancel", "on_info"]
+ARM_REQ_SHORT = ["stop", "cont", "shutdown", "cancel", "info", "entry", "expiry"]
+# which kinds of request a property's statements are about (Properties/Arms.v, block C..)
+ARM_RELEVANT = {"C09": {5, 6}, "C10": {3}, "C11": {2, 5, 6}, "C12": {0, 1, 4}}
+ARM_EVENT_NAMES = ["tick", "interval-expiry(terminate)", "interval-expiry", "grace-expiry", "leak-expiry",
+                   "child-exit(ok)", "child-exit(fail)", "pipes-closed", "Stop", "Continue", "Shutdown(INT)",
+                   "Shutdown(TERM)", "Shutdown(HUP)", "Shutdown(QUIT)", "Shutdown(second)", "OtherCancel", "GetInfo"]
+ARM_IMPORTS = ["Base.Str", "Model.Backoff", "Model.Clocks", "Model.UnitTimers", "Model.AbsTimers", "Model.UnitLife",
+               "Model.ArmTable", "gen.GenPauseTable", "gen.GenArmTable"]
+ARM_TARGETS = ["gen/GenPauseTable.vo", "gen/GenArmTable.vo", "Model/ArmTable.vo", "Proofs/ArmBridge.vo",
+               "Properties/Arms.vo"]
+ARM_TRANSLATOR = "harness/src/bin/arm_table.rs (syn translator of the request arms, DESIGN 11.2e)"
+
+
+def regen_arm_table():
+    """run the arm translator -> dict(ok, hard, errors, text). ok: every arm was translated. hard: nothing
+    usable was produced (the generated file is left as it was). With exit status 3 the translator still prints
+    the table, the arms it could not read being `[AUntranslated]` (which no model behaviour matches)."""
+    import gen_tie
+    binary, err = vlib.build_harness()
+    if binary is None:
+        return dict(ok=False, hard=True, errors=["harness build failed: " + err[-1500:]], text=None)
+    exe = os.path.join(os.path.dirname(binary), "arm_table")
+    rc, o, e = vlib.sh([exe], timeout=120, env=dict(vlib.ENV, VERIF_REPO=vlib.REPO))
+    errors = [l[len("arm_table: "):].strip() for l in e.splitlines() if l.startswith("arm_table: ")]
+    if rc not in (0, 3) or not o.startswith("(* GENERATED") or (rc == 3 and not errors):
+        return dict(ok=False, hard=True, errors=errors or [f"translator exit status {rc}: {(e or o)[-1500:]}"], text=None)
+    bad = gen_tie._only_definitions(o)
+    if bad:
+        return dict(ok=False, hard=True, text=None,
+                    errors=["generated file contains something other than definitions: " + "; ".join(bad[:5])])
+    path = os.path.join(vlib.GEN, "GenArmTable.v")
+    if not os.path.exists(path) or open(path).read() != o:
+        open(path, "w").write(o)
+    return dict(ok=(rc == 0), hard=False, errors=errors, text=o)
+
+
+def _arm_text(text, loop, req):
+    """the action list of one arm as printed in a generated table"""
+    import re
+    if text is None:
+        return None
+    if req >= 5:
+        if req == 6:
+            m = re.search(r"a_term_expiry := (\[.*\])\s*$", text, re.M)
+            return m.group(1) if m else None
+        return [m.group(0) for m in re.finditer(r"a_entry_\w+ := \[.*\]", text)]
+    m = re.search(ARM_FIELDS[loop] + r" := \{\|(.*?)\|\}", text, re.S)
+    if not m:
+        return None
+    m2 = re.search(ARM_REQ_FIELDS[req] + r" := (\[.*?\])\s*(;\s*$|\s*$)", m.group(1), re.M)
+    return m2.group(1) if m2 else None
+
+
+def arm_diffs():
+    """(loop, request) pairs on which the regenerated table and the model differ, each with the shortest
+    sequence of events (requests first) that leads a fresh unit to a state in which they differ"""
+    v = vlib.coq_eval("armdiff", ARM_IMPORTS, ["arm_diff_codes pause_table arm_table"], timeout=300)[0]
+    out = []
+    for row in v:
+        loop, req, path = row[0], row[1], row[3:]
+        if path == [999]:
+            seq = None    # only at a state no request sequence reaches
+        else:
+            seq = [ARM_EVENT_NAMES[c] for c in path]
+            if loop == 4:
+                seq = ["(attempt fails with retries left, delay begins)"] + seq
+        out.append(dict(loop=loop, req=req, path=seq))
+    return out
+
+
+def _arm_blocks(path):
+    import re
+    src = open(path).read()
+    parts = re.split(r"^\(\* == block (\w+)(?: \(needs ([\w ]+)\))? == \*\)\n", src, flags=re.M)
+    out = {}
+    for i in range(1, len(parts), 3):
+        out[parts[i]] = dict(needs=(parts[i + 1] or "").split(), text=parts[i + 2])
+    return out
+
+
+def _arm_probe(prop, timeout=300):
+    """compile, on their own, the bridge lemmas the property's block needs and the property's statements"""
+    import re
+    bl = _arm_blocks(os.path.join(vlib.COQ, "Proofs", "ArmBridge.v"))
+    st = _arm_blocks(os.path.join(vlib.COQ, "Properties", "Arms.v"))
+    blk = prop.lower()
+    if blk not in bl or prop not in st:
+        return False, {}, f"no block for {prop} in Proofs/ArmBridge.v / Properties/Arms.v"
+    order, seen = [], set()
+
+    def go(n):
+        if n in seen:
+            return
+        seen.add(n)
+        for d in bl[n]["needs"]:
+            go(d)
+        order.append(n)
+    go(blk)
+    names = re.findall(r"^\s*Theorem\s+([A-Za-z0-9_']+)", vlib.strip_comments(st[prop]["text"]), re.M)
+    path = os.path.join(vlib.GEN, f"assump_arms_{prop}.v")
+    with open(path, "w") as f:
+        f.write(bl["preamble"]["text"])
+        for n in order:
+            f.write(f"(* block {n} *)\n" + bl[n]["text"])
+        f.write(re.sub(r"^Print Assumptions (\w+)\.", r'Goal True. idtac "@@ \1". exact I. Qed.' + "\n" + r"Print Assumptions \1.",
+                       st[prop]["text"], flags=re.M))
+    rc, o, e = vlib.sh(["coqc", "-noglob", "-Q", ".", "NextestModel", path], cwd=vlib.COQ, timeout=timeout)
+    for ext in (".vo", ".vok", ".vos", ".glob"):
+        q = path[:-2] + ext
+        if os.path.exists(q):
+            os.remove(q)
+    aux = os.path.join(vlib.GEN, f".assump_arms_{prop}.aux")
+    if os.path.exists(aux):
+        os.remove(aux)
+    if rc != 0:
+        return False, {}, (o + e)[-1800:]
+    axioms = {}
+    chunks = re.split(r"@@ (\w+)\n", o)
+    for i in range(1, len(chunks), 2):
+        body = chunks[i + 1].strip()
+        axioms[chunks[i]] = [] if "Closed under the global context" in body else \
+            re.findall(r"^([A-Za-z0-9_.']+)\s*:", body, re.M)
+    missing = [n for n in names if n not in axioms]
+    if missing:
+        return False, axioms, "no assumption report for " + ", ".join(missing)
+    return True, axioms, ""
+
+
+def _arms_wrap_finish(chk, prop, rg):
+    """evidence: trusted base, assumption and what was regenerated (every return path of the check)"""
+    if getattr(chk, "_arms_wrapped", False):
+        return
+    chk._arms_wrapped = True
+    orig = chk.finish
+
+    def finish(gate_result, checker_cmd, trusted_base, extra_cov=None):
+        note = ("the request arms of the five wait loops (and terminate_child's entry and grace-expiry arm) are "
+                "regenerated from executor.rs / unix.rs by the syn translator and proved equal to the model's request "
+                "handling for all states and requests (Properties/Arms.v); the translator reads the Rust subset "
+                "correctly (an arm it cannot read is an error); the guards of the select! branches (which loop reads "
+                "the channel when) are part of the hand-written model")
+        if isinstance(chk.assumptions, list) and note not in chk.assumptions:
+            chk.assumptions.append(note)
+        tb = list(trusted_base)
+        if ARM_TRANSLATOR not in tb:
+            tb.append(ARM_TRANSLATOR)
+        cov = dict(extra_cov or {})
+        cov["arm_table"] = dict(loops=ARM_LOOPS, requests=ARM_REQS, property_requests=sorted(ARM_REQS[k] for k in ARM_RELEVANT[prop]),
+                                translated=bool(rg.get("ok")), translator_messages=rg.get("errors") or [],
+                                checker_cmd="arm_table > coq/gen/GenArmTable.v; make -C coq Proofs/ArmBridge.vo "
+                                            "Properties/Arms.vo; Print Assumptions")
+        return orig(gate_result, checker_cmd + " ; arm table: make -C coq Properties/Arms.vo", tb, cov)
+    chk.finish = finish
+
+
+def arms_gate(chk, prop, gate=None):
+    """regenerate the arm table, rebuild the bridge, audit the property's `*_source_*` theorems. A translator
+    failure or a bridge lemma that no longer checks for an arm this property is about is a VIOLATION
+    `arm-table:<loop>:<request>`, with the shortest event sequence after which the source's arm and the model
+    differ when there is one. Arms that belong to other properties do not fail this one: when the whole bridge
+    does not build, the property's own blocks are compiled separately. The outcome is merged into `gate`."""
+    import re, subprocess
+    t0 = time.time()
+    relevant = ARM_RELEVANT[prop]
+    regen_table()      # keep the pause table in step with the source too (its failures are reported by its owners)
+    rg = regen_arm_table()
+    mine = [n for n in vlib.theorem_names("Arms") if n.startswith(prop + "_")]
+    result = dict(ok=False, theorems=mine, axioms={})
+    _arms_wrap_finish(chk, prop, rg)
+
+    def merge(ok, axioms):
+        result.update(ok=ok, axioms=axioms)
+        if gate is not None:
+            gate["theorems"] = list(gate["theorems"]) + mine
+            gate["obligations"] += len(mine)
+            gate["discharged"] += len([n for n in mine if ok and n in axioms and not axioms[n]])
+            gate["axioms"].update({n: axioms.get(n, []) for n in mine})
+            if not ok:
+                gate["ok"] = False
+                gate["problems"] = list(gate["problems"]) + [f"arm table: the {prop} obligations of Properties/Arms.v "
+                                                             "are not discharged"]
+        chk.count("arm_table_wall_ms", int((time.time() - t0) * 1000))
+        if isinstance(chk.assumptions, list):
+            pass
+        return result
+
+    if rg["hard"]:
+        chk.violation("broken-obligation", "arm-table:translator", dict(errors=rg["errors"]), no_input=True)
+        return merge(False, {})
+    ok_build, out = vlib.coq_make(ARM_TARGETS, timeout=900)
+    if ok_build and rg["ok"]:
+        names, ax, aout = vlib.assumptions("Arms")
+        if ax is None or any(n not in ax for n in mine):
+            chk.violation("broken-obligation", "arm-table:assumptions",
+                          dict(error="Print Assumptions run failed: " + aout[-800:]), no_input=True)
+            return merge(False, {})
+        extra = sorted({a for n in mine for a in ax[n] if a not in vlib.AXIOM_ALLOW})
+        if extra:
+            chk.violation("broken-obligation", "arm-table:axioms", dict(theorems=mine, axioms=extra), no_input=True)
+            return merge(False, {n: ax[n] for n in mine})
+        chk.count("arm_table_arms_bridged", 5 * 5 + 3)
+        # the whole bridge holds: its statements (every state, every request; block `all`) are reported too
+        mine.extend(n for n in names if n.startswith("Arms_") and n in ax and not ax[n])
+        return merge(True, {n: ax[n] for n in mine})
+
+    # the translator gave up on an arm, or the bridge no longer checks: which loop, which request?
+    tr_err = {}
+    for e in rg["errors"]:
+        m = re.match(r"(\w+): ([\w-]+): (.*)", e)
+        if m and m.group(1) in ARM_LOOPS and m.group(2) in ARM_REQS:
+            tr_err.setdefault((ARM_LOOPS.index(m.group(1)), ARM_REQS.index(m.group(2))), []).append(m.group(3))
+    try:
+        committed = subprocess.run(["git", "-C", vlib.VERIF, "show", "HEAD:coq/gen/GenArmTable.v"],
+                                   capture_output=True, text=True).stdout or None
+    except Exception:
+        committed = None
+    diffs, diag_error = [], None
+    try:
+        ok_defs, out_defs = vlib.coq_make(ARM_TARGETS[:3], timeout=600)
+        if not ok_defs:
+            raise RuntimeError("the generated table does not compile:\n" + "\n".join(out_defs.strip().splitlines()[-12:]))
+        diffs = arm_diffs()
+    except Exception as ex:
+        diag_error = str(ex)[-1500:]
+    keys = {(d["loop"], d["req"]): d for d in diffs}
+    for k in tr_err:
+        keys.setdefault(k, dict(loop=k[0], req=k[1], path=None))
+    hit = False
+    for (loop, req), d in sorted(keys.items()):
+        chk.count(f"arm_table_differs:{ARM_SHORT[loop]}:{ARM_REQ_SHORT[req]}")
+        if req not in relevant:
+            continue
+        hit = True
+        detail = dict(
+            obligation=f"Proofs/ArmBridge.v block {ARM_SHORT[loop]}_{ARM_REQ_SHORT[req]}",
+            loop=ARM_LOOPS[loop], request=ARM_REQS[req],
+            meaning="what the source's arm does on this request (as read by the translator) is no longer what the "
+                    "unit model does; the theorems of Properties/Arms.v and, through the model, of this property "
+                    "no longer speak about the source",
+            arm_as_read=_arm_text(rg["text"], loop, req),
+            arm_in_committed_table=_arm_text(committed, loop, req),
+            translator_messages=tr_err.get((loop, req), []),
+            theorems=mine)
+        detail["clause"] = (f"{ARM_LOOPS[loop]}, {ARM_REQS[req]}: the source's arm reads {detail['arm_as_read']} "
+                            f"(committed table: {detail['arm_in_committed_table']}); the model does something else"
+                            + (f"; translator: {'; '.join(tr_err[(loop, req)])}" if (loop, req) in tr_err else ""))
+        if d.get("path") is not None and (loop, req) not in tr_err:
+            detail["request_sequence"] = d["path"] + [ARM_REQS[req] if req < 5 else
+                                                      ("(terminate_child is entered: a slow-timeout termination or a "
+                                                       "shutdown request)" if req == 5 else "(the grace period ends)")]
+            detail["differs_at"] = "the last element of request_sequence; everything before it is handled alike"
+            chk.violation("broken-obligation", f"arm-table:{ARM_LOOPS[loop]}:{ARM_REQS[req]}", detail)
+        else:
+            if (loop, req) not in tr_err:
+                detail["note"] = "model and table differ only at states no request sequence reaches from a fresh unit"
+            chk.violation("broken-obligation", f"arm-table:{ARM_LOOPS[loop]}:{ARM_REQS[req]}", detail, no_input=True)
+    if hit:
+        return merge(False, {})
+    # nothing this property is about differs as far as the diagnosis can tell: its own obligations are re-checked
+    # on their own
+    ok_p, ax, msg = _arm_probe(prop)
+    if not ok_p:
+        chk.violation("broken-obligation", f"arm-table:{prop}-bridge",
+                      dict(error=msg, diagnosis_error=diag_error, translator_messages=rg["errors"],
+                           differing_arms=[f"{ARM_LOOPS[l]}:{ARM_REQS[r]}" for (l, r) in sorted(keys)],
+                           build=("\n".join(out.strip().splitlines()[-15:]) if not ok_build else None)), no_input=True)
+        return merge(False, ax)
+    extra = sorted({a for n in mine for a in ax.get(n, []) if a not in vlib.AXIOM_ALLOW})
+    if extra:
+        chk.violation("broken-obligation", "arm-table:axioms", dict(theorems=mine, axioms=extra), no_input=True)
+        return merge(False, ax)
+    chk.sample(dict(arm_table_note="another property's arm no longer bridges; this property's blocks of "
+                                   "Proofs/ArmBridge.v and Properties/Arms.v were compiled on their own",
+                    differing_arms=[f"{ARM_LOOPS[l]}:{ARM_REQS[r]}" for (l, r) in sorted(keys)]), cap=12)
+    return merge(True, ax)
